@@ -4,6 +4,7 @@ import IndicatorVerif.Spec.Indicators
 import IndicatorVerif.Model.Strategies
 import IndicatorVerif.Model.StrategyOps
 import IndicatorVerif.Model.Assets
+import IndicatorVerif.Model.NetMachines
 /-
   ivdriver: runs the executable models on cases received over a line protocol (stdin → stdout).
   One case per line, one result per line.  Floats travel as 16-digit hex bit patterns.
@@ -363,6 +364,18 @@ def runCsvFile (ops : String) : String :=
   let (_, _, out) := (ops.splitOn ";").foldl step (none, 0, [])
   "ok " ++ ";".intercalate out
 
+def parseIntList (s : String) : Option (List Int) :=
+  if s == "-" then some [] else (s.splitOn ",").mapM String.toInt?
+
+/-- NET diamond fixed cap as bs: run the Duplicate → Operate → Operate network model to a terminal state -/
+def runNet (name fixed cap as bs : String) : String :=
+  match name, cap.toNat?, parseIntList as, parseIntList bs with
+  | "diamond", some c, some a, some b =>
+    let (term, clean, out, _) := NetM.diamondRun (fixed == "1") c a b
+    if !term then "fuel"
+    else (if clean then "ok" else "deadlock") ++ " | " ++ (if out.isEmpty then "-" else ",".intercalate (out.map toString))
+  | _, _, _, _ => "ERR bad-net"
+
 def handle (line : String) : String :=
   match (line.trimAscii.toString).splitOn " " with
   | [id, "IND", name, ns, fs, streams] => id ++ " " ++ runInd name ns fs streams
@@ -372,6 +385,7 @@ def handle (line : String) : String :=
   | [id, "SYNC", _workers, defDay, assets, failSrc, failTgt, _impl, runs, srcSpec, tgtSpec] =>
       id ++ " " ++ runSync defDay assets failSrc failTgt runs srcSpec tgtSpec
   | [id, "CSVFILE", ops] => id ++ " " ++ runCsvFile ops
+  | [id, "NET", name, fixed, cap, as, bs] => id ++ " " ++ runNet name fixed cap as bs
   | [id, "HELPER", name, ps, streams] => id ++ " " ++ runHelper name ps streams
   | [id, "HELPERF", name, ps, streams] => id ++ " " ++ runHelperF name ps streams
   | [id, "RING", _typ, cap, ops] => id ++ " " ++ runRing cap ops
